@@ -43,6 +43,50 @@ async fn drain_fast(world: &Arc<World>, c: usize, names: &[String]) {
     }
 }
 
+/// Holds the first thread that reaches the named synchronous window until `open` (at most 3 s).
+pub struct WindowGate {
+    name: &'static str,
+    state: std::sync::Mutex<(bool, bool)>, // (reached, open)
+    cv: std::sync::Condvar,
+}
+
+impl WindowGate {
+    pub fn new(name: &'static str) -> Self {
+        Self { name, state: std::sync::Mutex::new((false, false)), cv: std::sync::Condvar::new() }
+    }
+    pub fn reached(&self) -> bool {
+        self.state.lock().unwrap().0
+    }
+    pub fn open(&self) {
+        self.state.lock().unwrap().1 = true;
+        self.cv.notify_all();
+    }
+}
+
+impl deltio::verif::Controller for WindowGate {
+    fn poll_point(&self, _name: &'static str, _id: u64, _cx: &mut std::task::Context<'_>) -> bool {
+        true
+    }
+    fn sync_point(&self, name: &'static str, _id: u64) {
+        if name != self.name {
+            return;
+        }
+        let mut st = self.state.lock().unwrap();
+        if st.0 {
+            return; // only the first one is held
+        }
+        st.0 = true;
+        let deadline = std::time::Instant::now() + Duration::from_secs(3);
+        while !st.1 {
+            let left = deadline.saturating_duration_since(std::time::Instant::now());
+            if left.is_zero() {
+                break;
+            }
+            st = self.cv.wait_timeout(st, left).unwrap().0;
+        }
+    }
+}
+
 pub async fn run(seed: u64, profile: &str, out: Option<Out>) -> Vec<Value> {
     let mut rng = StdRng::seed_from_u64(seed ^ 0x33aa_55cc);
     let cap = [16usize, 1, 2][rng.gen_range(0..3)];
@@ -77,6 +121,50 @@ pub async fn run(seed: u64, profile: &str, out: Option<Out>) -> Vec<Value> {
                         let _ = exec(world, cc, CallSpec::Publish { topic: topic(1), msgs }).await;
                     }));
                 }
+            }
+        }
+        // The window of a deletion between leaving the manager's map and leaving the push registry
+        // (sync point `s.del.registry`), held open while another client creates the same name.
+        "regrace" => {
+            let gate = Arc::new(WindowGate::new("s.del.registry"));
+            deltio::verif::install_global_controller(Some(gate.clone()));
+            let old_push = [Some("http://127.0.0.1:9/old"), None][rng.gen_range(0..2)].map(|u| u.to_string());
+            let new_push = [Some("http://127.0.0.1:9/new"), Some("http://127.0.0.1:9/old"), None][rng.gen_range(0..3)].map(|u| u.to_string());
+            let second_delete = rng.gen_bool(0.3);
+            exec(Arc::clone(&world), 0, CallSpec::CreateTopic { name: topic(1) }).await;
+            exec(Arc::clone(&world), 0, CallSpec::CreateSub { name: sub(1), topic: topic(1), ack: 10, push: old_push }).await;
+            exec(Arc::clone(&world), 0, CallSpec::CreateSub { name: sub(2), topic: topic(1), ack: 10, push: None }).await;
+            {
+                let world = Arc::clone(&world);
+                handles.push(tokio::spawn(async move {
+                    let _ = exec(world, 1, CallSpec::DeleteSub { name: sub(1) }).await;
+                }));
+            }
+            {
+                let world = Arc::clone(&world);
+                let gate = gate.clone();
+                handles.push(tokio::spawn(async move {
+                    // wait until the deleting actor stands in the window (or gives up)
+                    for _ in 0..2000 {
+                        if gate.reached() {
+                            break;
+                        }
+                        tokio::time::sleep(Duration::from_millis(1)).await;
+                    }
+                    let _ = exec(Arc::clone(&world), 2, CallSpec::CreateSub { name: sub(1), topic: topic(1), ack: 10, push: new_push }).await;
+                    if second_delete {
+                        let _ = exec(Arc::clone(&world), 2, CallSpec::Publish { topic: topic(1), msgs: vec![MsgSpec { p: "mid".into() }] }).await;
+                    }
+                    gate.open();
+                }));
+            }
+            for h in handles.drain(..) {
+                let _ = h.await;
+            }
+            gate.open();
+            deltio::verif::install_global_controller(None);
+            if second_delete {
+                exec(Arc::clone(&world), 3, CallSpec::DeleteSub { name: sub(1) }).await;
             }
         }
         // Tight create / delete races of one name (the create's attach against the delete's remove).
